@@ -355,6 +355,40 @@ def _bundle_history(hist):
         return ("sub-classing Bundle accepted", len(hist))
     except Exception:
         pass
+    # additions after elaboration (of a module that uses the bundle, as a port or internally; directly or nested in another
+    # bundle) are refused and leave the bundle as it is
+    use = len(hist) % 3
+    user = h.Module(name="UserOfSubjectB")
+    if use == 0:
+        user.bb = bd(port=True)
+    elif use == 1:
+        user.bb = bd()
+    else:
+        outer = h.Bundle(name="OuterB")
+        outer.inner = bd()
+        user.bb = outer()
+    try:
+        h.elaborate(user)
+    except Exception as e:
+        return ("a module using the edited bundle cannot be elaborated: " + short_exc(e), len(hist))
+    before = (dict(bd.namespace), dict(bd.signals), dict(bd.bundles))
+    for form in FORMS:
+        for nm in ("late", hist[0][0]):
+            for kind in ("sig", "binst"):
+                v = h.Signal() if kind == "sig" else inner()
+                try:
+                    if form == "setattr":
+                        setattr(bd, nm, v)
+                    elif form == "add_named":
+                        v.name = nm
+                        bd.add(v)
+                    else:
+                        bd.add(v, name=nm)
+                    return (f"addition to a bundle after elaboration accepted ({form} of a {kind} as {nm!r}, bundle used {['as a port', 'internally', 'nested'][use]})", len(hist))
+                except Exception:
+                    pass
+                if (dict(bd.namespace), dict(bd.signals), dict(bd.bundles)) != before:
+                    return ("a refused post-elaboration addition still changed the bundle", len(hist))
     return (None, len(hist))
 
 
